@@ -207,6 +207,11 @@ func (fx *FuncCtx) callWith(st *State, c *ssa.CallCommon, fv *Val, args []*Val, 
 		return fx.applyContract(st, ct, names, args, resT, "lib:"+key, pos, callee)
 	}
 	if pureFuncs[key] {
+		if key == "fmt.Sprintf" && len(args) == 2 {
+			if elems, ok := fx.plainVariadic(st, c.Args[1], args[1]); ok {
+				return fx.pureCall(st, "pf$fmt_Sprintf$v", append([]*Val{args[0]}, elems...), resT)
+			}
+		}
 		return fx.pureCall(st, "pf$"+sanitize(key), args, resT)
 	}
 	if noEffectFuncs[key] {
@@ -1167,7 +1172,7 @@ func (fx *FuncCtx) restoreWhen(st, pre *State, cond string) {
 	keep := st.clone()
 	rest := pre.clone()
 	for c, t := range st.Heap {
-		if strings.HasPrefix(c, "G$rd_pos") || strings.HasPrefix(c, "G$it_") || strings.HasPrefix(c, "G$put_") || strings.HasPrefix(c, "G$part_") || strings.HasPrefix(c, "G$lp_") || strings.HasPrefix(c, "G$br_src") || strings.HasPrefix(c, "G$hdr_") {
+		if strings.HasPrefix(c, "G$rd_pos") || strings.HasPrefix(c, "G$it_") || strings.HasPrefix(c, "G$put_") || strings.HasPrefix(c, "G$part_") || strings.HasPrefix(c, "G$lp_") || strings.HasPrefix(c, "G$dm_") || strings.HasPrefix(c, "G$br_src") || strings.HasPrefix(c, "G$hdr_") {
 			rest.Heap[c] = t
 		}
 	}
@@ -1268,4 +1273,75 @@ func (e *Env) localsInScope(x ast.Expr) bool {
 		return true
 	})
 	return ok
+}
+
+// plainVariadic recognises a variadic ...interface{} argument built at the call site from a
+// fixed number of values of method-less basic types (integers, strings, booleans). For those
+// the formatted text is a function of the interface values alone, so the call can be modelled
+// as an uninterpreted function of the format and the individual operands.
+func (fx *FuncCtx) plainVariadic(st *State, a ssa.Value, v *Val) ([]*Val, bool) {
+	if c, ok := a.(*ssa.Const); ok && c.IsNil() {
+		return nil, true
+	}
+	sl, ok := a.(*ssa.Slice)
+	if !ok || sl.Low != nil || sl.High != nil || sl.Max != nil {
+		return nil, false
+	}
+	al, ok := sl.X.(*ssa.Alloc)
+	if !ok {
+		return nil, false
+	}
+	pt, ok := al.Type().Underlying().(*types.Pointer)
+	if !ok {
+		return nil, false
+	}
+	arr, ok := pt.Elem().Underlying().(*types.Array)
+	if !ok || arr.Len() > 6 {
+		return nil, false
+	}
+	it, ok := arr.Elem().Underlying().(*types.Interface)
+	if !ok || it.NumMethods() != 0 {
+		return nil, false
+	}
+	stores := 0
+	for _, r := range *al.Referrers() {
+		switch r := r.(type) {
+		case *ssa.Slice:
+			if r != sl {
+				return nil, false
+			}
+		case *ssa.IndexAddr:
+			for _, rr := range *r.Referrers() {
+				s, ok := rr.(*ssa.Store)
+				if !ok || s.Addr != r {
+					return nil, false
+				}
+				mi, ok := s.Val.(*ssa.MakeInterface)
+				if !ok {
+					return nil, false
+				}
+				t := mi.X.Type()
+				if _, ok := t.Underlying().(*types.Basic); !ok {
+					return nil, false
+				}
+				if types.NewMethodSet(t).Len() != 0 || types.NewMethodSet(types.NewPointer(t)).Len() != 0 {
+					return nil, false
+				}
+				stores++
+			}
+		case *ssa.DebugRef:
+		default:
+			return nil, false
+		}
+	}
+	if int64(stores) != arr.Len() {
+		return nil, false
+	}
+	name, cs := elemComp(fx.u, arr.Elem())
+	h := fx.heapGet(st, name, cs)
+	var out []*Val
+	for i := int64(0); i < arr.Len(); i++ {
+		out = append(out, &Val{T: fmt.Sprintf("(select (select %s (sl_arr %s)) (+ (sl_off %s) %d))", h, v.T, v.T, i), Ty: arr.Elem()})
+	}
+	return out, true
 }
